@@ -54,6 +54,19 @@ pub struct SessionCase {
     pub ops: Vec<SessOp>,
 }
 
+/// One HttpReader used for several operations in a row against one scripted server; the fault steps apply to the
+/// requests of the whole session in order.
+#[derive(Clone, Debug, Serialize, Deserialize)]
+pub struct HSessionCase {
+    pub data_len: u16,
+    pub seed: u32,
+    pub ops: Vec<SessOp>,
+    pub steps: Vec<Step>,
+    pub budget: u32,
+    pub pieces: Vec<u8>,
+    pub chunked: bool,
+}
+
 /// one failure step for the k-th request of the whole session
 #[derive(Clone, Debug, Serialize, Deserialize, PartialEq)]
 pub enum Step {
@@ -335,6 +348,123 @@ fn script_for(steps: &[Step], pieces: &[u8], chunked: bool) -> Script {
     Script { rules, data_from: 0, max_requests: 0 }
 }
 
+/// read_at model: each attempt requests the full range; failure = drop or cut before the end; a clean early end is an
+/// error at once. Returns (number of requests, whether the call must succeed).
+fn model_read_at(l: usize, steps: &[Step], budget: u32) -> (usize, bool) {
+    let mut attempts = 0usize;
+    let mut left = budget;
+    let ok = loop {
+        let step = steps.get(attempts).cloned().unwrap_or(Step::Ok);
+        attempts += 1;
+        let fail = match step {
+            Step::Ok => false,
+            Step::Drop => true,
+            Step::Cut(k) => (k as usize) < l,
+            Step::Short(k) => {
+                if (k as usize) < l {
+                    break false;
+                }
+                false
+            }
+        };
+        if !fail {
+            break true;
+        }
+        if left == 0 {
+            break false;
+        }
+        left -= 1;
+    };
+    (attempts, ok)
+}
+
+fn run_hsession(c: &HSessionCase, rec: &mut CaseRec) -> Result<(), String> {
+    let data = Arc::new(blob(c.data_len as usize, c.seed));
+    let has_partial = c.ops.iter().any(|o| matches!(o, SessOp::ChunksPartial(..)));
+    // a consumer that drops a stream early leaves the number of requests already sent open: such sessions are fault-free
+    // and only the delivered data is judged
+    let steps: Vec<Step> = if has_partial { vec![] } else { c.steps.clone() };
+    let srv = http::Server::start(data.clone(), script_for(&steps, &c.pieces, c.chunked));
+    let url: reqwest::Url = srv.url().parse().unwrap();
+    let mut expected: Vec<(u64, u64)> = vec![];
+    let mut failed_ops = 0usize;
+    let mut done_ops = 0usize;
+    let r: Result<(), String> = crate::util::block_on(async {
+        use futures_util::StreamExt;
+        let mut reader = HttpReader::from_url(url.clone()).retries(c.budget).retry_delay(std::time::Duration::from_secs(0));
+        for (i, op) in c.ops.iter().enumerate() {
+            let k = expected.len().min(steps.len());
+            match op {
+                SessOp::ReadAt(o, l) => {
+                    let o = idx(*o, data.len());
+                    let l = (*l as usize).clamp(1, data.len() - o);
+                    let (attempts, want_ok) = model_read_at(l, &steps[k..], c.budget);
+                    for _ in 0..attempts {
+                        expected.push((o as u64, (o + l - 1) as u64));
+                    }
+                    match reader.read_at(o as u64, l).await {
+                        Ok(b) => {
+                            if !want_ok {
+                                return Err(format!("session op #{}: read_at succeeded although the transfer failed beyond the retry budget / ended early", i));
+                            }
+                            if b[..] != data[o..o + l] {
+                                return Err(format!("session op #{}: read_at({},{}) returned {} bytes / wrong bytes", i, o, l, b.len()));
+                            }
+                        }
+                        Err(e) => {
+                            if want_ok {
+                                return Err(format!("session op #{}: read_at({},{}) failed ({}) although failures were within the retry budget", i, o, l, e));
+                            }
+                            failed_ops += 1;
+                        }
+                    }
+                }
+                SessOp::Chunks(specs) | SessOp::ChunksPartial(specs, _) => {
+                    let mut ranges = place_ranges(specs, data.len());
+                    if ranges.is_empty() {
+                        continue;
+                    }
+                    let chunks: Vec<ChunkOffset> = ranges.iter().map(|(o, l)| ChunkOffset::new(*o, *l)).collect();
+                    let take = match op {
+                        SessOp::ChunksPartial(_, n) => (*n as usize) % ranges.len(),
+                        _ => ranges.len(),
+                    };
+                    let m = model(&ranges, &steps[k..], c.budget);
+                    expected.extend(m.requests.iter().cloned());
+                    ranges.truncate(take);
+                    let (n, err) = drain(Box::pin(reader.read_chunks(chunks).take(take)), &data, &ranges).await.map_err(|e| format!("session op #{}: {}", i, e))?;
+                    if m.fails {
+                        if err.is_none() {
+                            return Err(format!("session op #{}: retries exhausted / body ended early but the stream reported no error ({} items)", i, n));
+                        }
+                        failed_ops += 1;
+                    } else if err.is_some() || n != take {
+                        return Err(format!("session op #{}: {} of {} items, error {:?}, although every failure was within the retry budget", i, n, take, err));
+                    }
+                }
+            }
+            done_ops += 1;
+        }
+        Ok(())
+    });
+    r?;
+    if !has_partial {
+        let log: Vec<(u64, u64)> = srv.requests().iter().map(|r| r.range.unwrap_or((u64::MAX, 0))).collect();
+        if log != expected {
+            let i = log.iter().zip(expected.iter()).position(|(a, b)| a != b).unwrap_or(log.len().min(expected.len()));
+            return Err(format!("session requests: request #{} is {:?} but the resume model expects {:?} ({} sent, {} expected; steps {:?}, budget {})", i, log.get(i), expected.get(i), log.len(), expected.len(), steps, c.budget));
+        }
+    }
+    drop(srv);
+    rec.level = Some("L1");
+    rec.class("http_session");
+    rec.class_if(failed_ops > 0 && done_ops > failed_ops, "operation_after_a_failed_one");
+    rec.class_if(has_partial, "stream_dropped_early");
+    rec.class_if(!c.pieces.is_empty(), "body_in_pieces");
+    rec.nontrivial = done_ops >= 2;
+    Ok(())
+}
+
 fn run_http(c: &HttpCase, rec: &mut CaseRec) -> Result<(), String> {
     let data = Arc::new(blob(c.data_len as usize, c.seed));
     let ranges = place_ranges(&c.ranges, data.len());
@@ -526,6 +656,23 @@ fn ranges_strategy(max: usize) -> impl Strategy<Value = Vec<RangeSpec>> {
         1..=max,
     )
 }
+fn hsession_strategy() -> impl Strategy<Value = HSessionCase> {
+    let op = prop_oneof![
+        2 => (prop_oneof![1 => Just(0u16), 3 => any::<u16>()], 1u16..300).prop_map(|(o, l)| SessOp::ReadAt(o, l)),
+        4 => ranges_strategy(5).prop_map(SessOp::Chunks),
+        1 => (ranges_strategy(5), any::<u8>()).prop_map(|(r, n)| SessOp::ChunksPartial(r, n)),
+    ];
+    (
+        1u16..=3000,
+        any::<u32>(),
+        prop::collection::vec(op, 2..5),
+        prop_oneof![2 => Just(vec![]), 3 => prop::collection::vec(step_strategy(), 1..8)],
+        0u32..=3,
+        prop_oneof![2 => Just(vec![]), 1 => prop::collection::vec(1u8..60, 1..3)],
+        any::<bool>(),
+    )
+        .prop_map(|(data_len, seed, ops, steps, budget, pieces, chunked)| HSessionCase { data_len, seed, ops, steps, budget, pieces, chunked })
+}
 fn session_strategy() -> impl Strategy<Value = SessionCase> {
     let op = prop_oneof![
         2 => (prop_oneof![1 => Just(0u16), 3 => any::<u16>()], 1u16..500).prop_map(|(o, l)| SessOp::ReadAt(o, l)),
@@ -568,7 +715,7 @@ impl Prop for C08 {
     fn meta(&self, _tier: Tier) -> Meta {
         Meta {
             level: "fault_enumeration",
-            rule: "local: data blob x range lists (placed, adjacent, overlapping, unordered; sizes >= 1) x read scripts (short reads of 1,2,3,7,random sizes, Pending at scripted polls) x early EOF, through IoReader::read_chunks / read_at on a fresh reader. session: ONE local reader, possibly consumed up to an arbitrary position before it was wrapped, used for 1-5 operations in a row (read_at, read_chunks read to the end, read_chunks dropped after k items), range lists starting at offset 0 with weight 1/7. http: the same range lists through HttpReader::read_chunks / read_at against the scripted server with a per-request fault step (ok | accept-and-drop | cut after k body bytes (FIN) | clean early end after k bytes), retry budget 0..3, delay 0, body flushed in pieces or chunked transfer encoding. 'cuts': for bodies of <= 40 bytes EVERY cut offset 0..len of the first request x second-request step in {ok, cut 0, cut 1, drop} x budget 0..3. Oracle: items == requested slices in order; the Range log equals the resume model exactly (request i+1 starts at offset + bytes received, at most 1+budget requests per run of adjacent ranges); budget exhaustion or an early clean end gives Err after a correct prefix and then the end of the stream; read_at returns exactly size bytes or Err and re-requests the whole range. Non-trivial = a mid-body cut followed by a resume, budget exhaustion, clean early end, or a short read inside a chunk / early EOF; distinct by Blake2 of the canonical case.".into(),
+            rule: "local: data blob x range lists (placed, adjacent, overlapping, unordered; sizes >= 1) x read scripts (short reads of 1,2,3,7,random sizes, Pending at scripted polls) x early EOF, through IoReader::read_chunks / read_at on a fresh reader. session: ONE local reader, possibly consumed up to an arbitrary position before it was wrapped, used for 1-5 operations in a row (read_at, read_chunks read to the end, read_chunks dropped after k items), range lists starting at offset 0 with weight 1/7. hsession: ONE HttpReader for 2-4 operations in a row against one scripted server whose fault steps span the whole session (also an operation after a failed one). http: the same range lists through HttpReader::read_chunks / read_at against the scripted server with a per-request fault step (ok | accept-and-drop | cut after k body bytes (FIN) | clean early end after k bytes), retry budget 0..3, delay 0, body flushed in pieces or chunked transfer encoding. 'cuts': for bodies of <= 40 bytes EVERY cut offset 0..len of the first request x second-request step in {ok, cut 0, cut 1, drop} x budget 0..3. Oracle: items == requested slices in order; the Range log equals the resume model exactly (request i+1 starts at offset + bytes received, at most 1+budget requests per run of adjacent ranges); budget exhaustion or an early clean end gives Err after a correct prefix and then the end of the stream; read_at returns exactly size bytes or Err and re-requests the whole range. Non-trivial = a mid-body cut followed by a resume, budget exhaustion, clean early end, or a short read inside a chunk / early EOF; distinct by Blake2 of the canonical case.".into(),
             assumptions: vec!["the server returns correct bytes whenever it answers (wrong data is C04's domain); zero-length ranges are outside the domain (no caller produces them)".into(), "true 'connection refused' is replaced by accept-and-drop".into()],
             ..Meta::default()
         }
@@ -634,6 +781,7 @@ impl Prop for C08 {
             cx.set_exhaustive("every_split_point_of_small_bodies_plain_and_chunked", splits);
         }
         cx.run_prop("http", t.pick(6_000, 120_000), http_strategy(), run_http);
+        cx.run_prop("hsession", t.pick(3_000, 60_000), hsession_strategy(), run_hsession);
         cx.run_prop("cli", t.pick(1600, 30_000), cli_strategy(), run_cli);
         let _ = std::fs::remove_dir_all(crate::props::c01::worker_dir("C08"));
     }
@@ -642,6 +790,7 @@ impl Prop for C08 {
         match variant {
             "splits" | "cuts" => run_http(&serde_json::from_value(case.clone()).map_err(|e| e.to_string())?, &mut rec),
             "cli" => run_cli(&serde_json::from_value(case.clone()).map_err(|e| e.to_string())?, &mut rec),
+            "hsession" => run_hsession(&serde_json::from_value(case.clone()).map_err(|e| e.to_string())?, &mut rec),
             "session" => run_session(&serde_json::from_value(case.clone()).map_err(|e| e.to_string())?, &mut rec),
             "local" => run_local(&serde_json::from_value(case.clone()).map_err(|e| e.to_string())?, &mut rec),
             _ => run_http(&serde_json::from_value(case.clone()).map_err(|e| e.to_string())?, &mut rec),
